@@ -2,6 +2,7 @@
 from __future__ import annotations
 from .runner import Result, Violation, scaled
 from .gen_core import gen_case
+from .prog import S
 from . import model as M
 
 PROPERTY = "C03"
@@ -15,13 +16,39 @@ ASSUMPTIONS = ["vp/model.py is a faithful reading of the documented semantics fo
                "g++-12 -O1 build of the working tree with harness-side shims for <chrono> I/O, simdjson and named time zones",
                "instrumented harness nodes log truthfully from inside user code"]
 FLOORS = {"runs_compared": {"quick": 2000, "thorough": 20000}, "gate_closed": {"quick": 20, "thorough": 200},
-          "passive_only_ticks": {"quick": 10, "thorough": 100}}
+          "passive_only_ticks": {"quick": 10, "thorough": 100}, "partially_wired_all_valid_consumers": {"quick": 40, "thorough": 600}}
 BATCH = 25
+
+
+def add_pair_gates(rng, case):
+    """Consumers with a trigger and a PASSIVE structural bundle {a, b} behind the all-valid selector (and, as control, the
+    default selector), wired fully and with the partial named initializer (field b is then a null source that never holds a
+    value: the all-valid consumer must never run, the default one runs once a is valid)."""
+    main = case.graphs["main"]
+    ports = [st.dst for st in main if st.dst and st.op in ("src", "ticker", "pass", "add2", "add3", "acc", "count", "sample", "delay")]
+    if len(ports) < 2:
+        return 0
+    u = 1 + max([s.uid() or 0 for g in case.graphs.values() for s in g] + [0])
+    n = 0
+    for _ in range(rng.choice([1, 2, 3])):
+        op = rng.choice(["pairall", "pairall", "pairany"])
+        args = [rng.choice(ports) for _ in range(rng.choice([2, 2, 3]))]
+        main.append(S(f"pg{u}", op, *args, uid=u))
+        main.append(S("", "rec", f"pg{u}", uid=u + 1))
+        u += 2
+        n += 1
+    return n
 
 
 def generate(rng, tier, seed):
     n = scaled(500 if tier == "quick" else 8000)
-    return [gen_case(rng, f"c03_{seed}_{k}") for k in range(n)]
+    cases = [gen_case(rng, f"c03_{seed}_{k}") for k in range(n)]
+    extra = []
+    for k in range(n // 4):
+        c = gen_case(rng, f"c03_{seed}_pg{k}", n_nodes=rng.choice([3, 5, 8]), max_depth=1)
+        c.meta["pair_gates"] = add_pair_gates(rng, c)
+        extra.append(c)
+    return cases + extra
 
 
 def compare_runs(case, run, mr, label="model"):
@@ -109,6 +136,8 @@ def check(case, tr):
     res.counters = {"runs_compared": len(mr.runs), "cycles": len(mr.cycles),
                     "gate_closed": mr.stats.get("gate_closed", 0),
                     "passive_only_ticks": mr.stats.get("passive_only_ticks", 0),
-                    "timer_and_input": mr.stats.get("timer_and_input", 0)}
+                    "timer_and_input": mr.stats.get("timer_and_input", 0),
+                    "structural_bundle_gate_consumers": case.meta.get("pair_gates", 0),
+                    "partially_wired_all_valid_consumers": sum(1 for st in case.graphs["main"] if st.op == "pairall" and len(st.args) == 2)}
     res.nontrivial = any(mr.stats.get(k, 0) for k in ("gate_closed", "passive_only_ticks", "timer_and_input")) and len(mr.runs) > 3
     return res
